@@ -21,7 +21,7 @@ ASSUMPTIONS = ['NotImplementedError escaping emulate_cycle is the documented not
 
 CTXS = [('v6-pmsa-sec', 'off'), ('v6-pmsa-sec', 'mpu'), ('v7-pmsa-r', 'off'), ('v7-vmsa-sec', 'off'),
         ('v7-vmsa-sec', 'mmu'), ('v7-vmsa-virt', 'off'), ('v5-pmsa', 'off'), ('v4-pmsa', 'off'), ('v6-pmsa', 'mpu'),
-        ('v6-vmsa', 'mmu'), ('v7-pmsa-r', 'mpu')]
+        ('v6-vmsa', 'mmu'), ('v7-pmsa-r', 'mpu'), ('v6-pmsa-sec-impdef', 'mpu'), ('v7-vmsa-virt-impdef', 'off')]
 SHARD_TIMEOUT = {'quick': 900, 'thorough': 7200}
 
 
